@@ -12,16 +12,20 @@ package main
 import (
 	"context"
 	"encoding/json"
+	"errors"
 	"fmt"
+	"net"
 	"os"
 	"sort"
 	"strconv"
 
 	"github.com/go-logr/logr"
 	"k8s.io/apimachinery/pkg/api/equality"
+	apierrors "k8s.io/apimachinery/pkg/api/errors"
 	metav1 "k8s.io/apimachinery/pkg/apis/meta/v1"
 	"k8s.io/apimachinery/pkg/apis/meta/v1/unstructured"
 	"k8s.io/apimachinery/pkg/runtime"
+	"k8s.io/apimachinery/pkg/runtime/schema"
 	"k8s.io/apimachinery/pkg/types"
 	ctrl "sigs.k8s.io/controller-runtime"
 	"sigs.k8s.io/controller-runtime/pkg/client"
@@ -314,6 +318,8 @@ type sliceGCStep struct {
 	Label  int     `json:"label,omitempty"`  // ... 0 with the deployment's label, 1 without, 2 labelled in another namespace
 	Ctrl   int     `json:"ctrl,omitempty"`
 	Holds  *int    `json:"holds,omitempty"` // slice: the content it holds (default: the content it is named after)
+	Life   int     `json:"life,omitempty"`  // newset / setlife: lifecycle state 0 active, 1 paused, 2 archived
+	Gone   bool    `json:"gone,omitempty"`  // newset / setlife: being deleted (deletionTimestamp set, finalizer still there)
 }
 
 type sliceGCScenario struct {
@@ -325,6 +331,8 @@ type aGCSet struct {
 	NS     string     `json:"ns"`
 	Name   string     `json:"name"`
 	Listed bool       `json:"listed"` // namespace of the deployment and labels matching its selector
+	Life   string     `json:"life"`   // spec.lifecycleState; not part of what makes an ObjectSet a holder of slices
+	Gone   bool       `json:"gone"`   // deletionTimestamp set
 	Refs   [][]string `json:"refs"`
 }
 
@@ -351,6 +359,8 @@ func (w *depWorld) sets() []aGCSet {
 		u := &unstructured.Unstructured{Object: m}
 		a := aGCSet{NS: k.Namespace, Name: k.Name, Refs: [][]string{}}
 		a.Listed = k.Namespace == w.ns && u.GetLabels()["app"] == w.name
+		a.Life, _, _ = unstructured.NestedString(m, "spec", "lifecycleState")
+		a.Gone = u.GetDeletionTimestamp() != nil
 		phases, _, _ := unstructured.NestedSlice(m, "spec", "phases")
 		for _, p := range phases {
 			names := []string{}
@@ -479,8 +489,33 @@ func init() {
 				if ns != "" {
 					md["namespace"] = ns
 				}
+				spec := map[string]any{"phases": runtime.DeepCopyJSONValue(phases)}
+				if st.Life != 0 {
+					spec["lifecycleState"] = string(lifeState(st.Life))
+				}
+				if st.Gone {
+					md["deletionTimestamp"] = "2020-09-13T12:28:20Z"
+					md["finalizers"] = []any{constants.CachedFinalizer}
+				}
 				w.s.RawPut(map[string]any{"apiVersion": corev1alpha1.GroupVersion.String(), "kind": w.kind("ObjectSet"),
-					"metadata": md, "spec": map[string]any{"phases": runtime.DeepCopyJSONValue(phases)}}, false)
+					"metadata": md, "spec": spec}, false)
+			case "setlife":
+				// the ObjectDeployment controller pauses / archives an older revision, or a revision is being deleted
+				for _, ns := range []string{w.ns, otherNS} {
+					k := storeKey{corev1alpha1.GroupVersion.Group, w.kind("ObjectSet"), ns, "os" + strconv.Itoa(st.Name)}
+					m := w.s.RawGet(k)
+					if m == nil {
+						continue
+					}
+					_ = unstructured.SetNestedField(m, string(lifeState(st.Life)), "spec", "lifecycleState")
+					if st.Gone {
+						u := &unstructured.Unstructured{Object: m}
+						ts := metav1.Unix(1600000200, 0)
+						u.SetDeletionTimestamp(&ts)
+						u.SetFinalizers([]string{constants.CachedFinalizer})
+					}
+					w.s.RawPut(m, true)
+				}
 			case "delset":
 				for _, ns := range []string{w.ns, otherNS} {
 					w.s.RawDelete(storeKey{corev1alpha1.GroupVersion.Group, w.kind("ObjectSet"), ns, "os" + strconv.Itoa(st.Name)})
@@ -525,11 +560,19 @@ type aSlice struct {
 	RV      int     `json:"rv"`
 }
 
+// aSliceFault: the Read-th (0-based) Get of an ObjectSlice in the pass fails without effect.
+// Kind: err (500 InternalError) | timeout (ServerTimeout) | gone (410) | neterr (transport error without API status).
+type aSliceFault struct {
+	Read int    `json:"read"`
+	Kind string `json:"kind"`
+}
+
 type slicedWorldScenario struct {
 	objectsetScenario
-	Refs    []aSliceRefs `json:"refs"`
-	Slices  []aSlice     `json:"slices"`
-	NextSRV int64        `json:"next_srv"`
+	Refs       []aSliceRefs `json:"refs"`
+	Slices     []aSlice     `json:"slices"`
+	NextSRV    int64        `json:"next_srv"`
+	SliceFault *aSliceFault `json:"slice_fault,omitempty"`
 }
 
 type slicedsetScenario struct {
@@ -572,6 +615,27 @@ type splitClient struct {
 	*Store
 	slices *Store
 	pos    []int
+	fault  *aSliceFault
+	reads  int
+}
+
+func (c *splitClient) readFault(key client.ObjectKey) error {
+	n := c.reads
+	c.reads++
+	if c.fault == nil || c.fault.Read != n {
+		return nil
+	}
+	gr := schema.GroupResource{Group: corev1alpha1.GroupVersion.Group, Resource: "objectslices"}
+	switch c.fault.Kind {
+	case "timeout":
+		return apierrors.NewServerTimeout(gr, "get", 1)
+	case "gone":
+		return apierrors.NewGone("injected fault: gone")
+	case "neterr":
+		return &net.OpError{Op: "read", Net: "tcp", Err: errors.New("connection reset by peer")}
+	default:
+		return apierrors.NewInternalError(errors.New("injected fault"))
+	}
 }
 
 func (c *splitClient) isSlice(obj runtime.Object) bool {
@@ -594,6 +658,9 @@ func (c *splitClient) mark(before int) {
 
 func (c *splitClient) Get(ctx context.Context, key client.ObjectKey, obj client.Object, opts ...client.GetOption) error {
 	if c.isSlice(obj) {
+		if err := c.readFault(key); err != nil {
+			return err
+		}
 		n := len(c.slices.Log)
 		defer c.mark(n)
 		return c.slices.Get(ctx, key, obj, opts...)
@@ -719,7 +786,7 @@ func abstractSlices(s *Store) []aSlice {
 }
 
 // runSetWorld: one Reconcile of the real (Cluster)ObjectSet controller for sc.Target; refs/slices may be empty (inline world).
-func runSetWorld(sc objectsetScenario, refs []aSliceRefs, slices []aSlice, nextSRV int64) (*slicedObs, error) {
+func runSetWorld(sc objectsetScenario, refs []aSliceRefs, slices []aSlice, nextSRV int64, fault *aSliceFault) (*slicedObs, error) {
 	scheme := newScheme()
 	s := NewStore(scheme, newMapper())
 	sl := NewStore(scheme, newMapper())
@@ -785,7 +852,7 @@ func runSetWorld(sc objectsetScenario, refs []aSliceRefs, slices []aSlice, nextS
 		s.Faults[n] = v
 	}
 	cache := &fakeCache{s: s}
-	cl := &splitClient{Store: s, slices: sl}
+	cl := &splitClient{Store: s, slices: sl, fault: fault}
 	var c *objectsets.GenericObjectSetController
 	if sc.Target.Kind == 2 {
 		c = objectsets.NewClusterObjectSetController(cl, logr.Discard(), scheme, cache, s, nil, s.RESTMapper())
@@ -855,11 +922,11 @@ func init() {
 		if err := json.Unmarshal(raw, &sc); err != nil {
 			return nil, err
 		}
-		sliced, err := runSetWorld(sc.Sliced.objectsetScenario, sc.Sliced.Refs, sc.Sliced.Slices, sc.Sliced.NextSRV)
+		sliced, err := runSetWorld(sc.Sliced.objectsetScenario, sc.Sliced.Refs, sc.Sliced.Slices, sc.Sliced.NextSRV, sc.Sliced.SliceFault)
 		if err != nil {
 			return nil, err
 		}
-		inline, err := runSetWorld(sc.Inline, nil, nil, 1)
+		inline, err := runSetWorld(sc.Inline, nil, nil, 1, nil)
 		if err != nil {
 			return nil, err
 		}
